@@ -112,8 +112,13 @@ def generate(seed: int, tier: str = "quick") -> dict:
                 s[i] = A.dstr(Decimal(s[i]) * mult, 12)
         faults.append({"kind": "price_shock", "bar": bs})
     program = [p for _, p in sorted(enumerate(program), key=lambda e: (e[1]["bar"], PHASES.index(e[1]["phase"]), e[0]))]
-    if A.add_bystander(R.sub(seed, "bystander"), world) is not None:
+    by = A.add_bystander(R.sub(seed, "bystander"), world)
+    if by is not None:
         faults.append({"kind": "second_market_of_the_same_kind_registered_first"})
+        if R.sub(seed, "bystander_busy").random() < 0.6:  # the second pool is in use too (positions, reads at the head of the bars)
+            order = ["initialize", "before_bar", "trigger", "on_bar", "after_bar", "notify"]
+            program = A.bystander_program(R.sub(seed, "bystander_ops"), world, by, nb) + program
+            program = [p for _, p in sorted(enumerate(program), key=lambda e: (e[1]["bar"], order.index(e[1]["phase"]), e[0]))]
     return {"property": ID, "seed": seed, "world": world, "program": program, "faults": faults, "opts": {"sweep": rw.random() < 0.5}}
 
 
@@ -299,11 +304,15 @@ class StaleOracle(Oracle):
             self._sweep(sim)
 
     def before_op(self, sim, op):
+        if op.get("m") not in (None, "aave0"):
+            return  # an operation on the second pool: not this oracle\'s market
         self.n_actions_op = len(sim.actuator.actions)
         if op["op"] != "aave.read":
             self._mask_before = self._mask()
 
     def after_op(self, sim, op, outcome):
+        if op.get("m") not in (None, "aave0"):
+            return
         self.opcount += 1
         status = outcome["status"]
         if status == "skipped":
